@@ -8,7 +8,7 @@ import Cellml.C15.Model
            (eqsfor ("v" ("lhs"…))…) (eqsforall …) (eqsforallunits …) (eqsfordirect ("v" (…))…))`
     | `(err Class "what")`; a query that fails answers `(qerr kind)` in its slot.
     Nodes are numbered by position in `variables ++ derivative left-hand sides`; keys are `str()` of the SymPy
-    objects (`_c$v`, `Derivative(_c$x, _c$t)`). -/
+    objects (`c$v`, `Derivative(_c$x, _c$t)`). -/
 namespace C15
 open Sexp Load
 
@@ -19,22 +19,22 @@ def adv? : Sexp → Option Adv
   | _ => none
 
 /-- all nodes the queries can mention: the variables, then the derivative left-hand sides in equation order -/
-def universe (F : Flat) : List (Lhs VRef) :=
+def nodesOf (F : Flat) : List (Lhs VRef) :=
   (variables F).map Lhs.var ++ (F.eqs.filter (·.lhs.isDiff)).map (·.lhs)
 
 def strKey : Lhs VRef → String
-  | .var a => "_" ++ C01.flatName a
+  | .var a => C01.flatName a        -- `Variable.__str__` is the bare name; inside a Derivative SymPy prints `_name`
   | .diff x t => "Derivative(_" ++ C01.flatName x ++ ", _" ++ C01.flatName t ++ ")"
 
 def ctxOf (F : Flat) : Ctx :=
-  let U := universe F
+  let U := nodesOf F
   { num := fun x => U.idxOf x
     key := fun n => match U[n]? with
       | some x => strKey x
       | none => "?" ++ toString n }
 
 def nodeName (F : Flat) (n : Node) : Sexp :=
-  match (universe F)[n]? with
+  match (nodesOf F)[n]? with
   | some x => .str (C01.lhsName x)
   | none => .str ("?" ++ toString n)
 
